@@ -43,11 +43,14 @@ structure DS where
   intrTotal : Nat := 0
   dead : Bool := false
   ft : FdTable.T := {}                 -- the side conns of the engine (fd table model)
+  wadded : Bool := false               -- the writing event was armed (write backlog): one EPOLL_CTL_MOD in LT mode
 
 
-def ctlStr (g : Cfg) (s : St) : String :=
+def ctlStr (g : Cfg) (s : St) (wadded : Bool := false) : String :=
   let a := match g.mode with | .lt => "Ar" | .et => "Arwe" | .os => "Areo"
-  String.intercalate "," (a :: List.replicate s.mods "Mreo")
+  -- a write backlog arms the writing event once: EPOLL_CTL_MOD in LT mode (plain ET has it in the interest set already)
+  let w := if wadded && g.mode == .lt then ["Mrw"] else []
+  String.intercalate "," (a :: w ++ List.replicate s.mods "Mreo")
 
 def taskStr : TS → String
   | .none => "none" | .queued => "queued" | .rd _ _ => "read" | .dec _ => "dec"
@@ -87,7 +90,7 @@ def showSt (d : DS) (what : String) : String × DS :=
   let opens := String.intercalate "," ((s.opens.drop d.nOpen).map toString)
   let dels := String.intercalate "," ((s.dlv.drop d.nDlv).map fun (id, b) => s!"{id}:{b.length}:{hex16 (Drv.fnv b)}")
   let cl := if s.closed then "1:" ++ cerrStr s.cerr else "0"
-  (s!"R {what} open=[{opens}] del=[{dels}] q={q} re={s.re} task={taskStr s.task} arm={b2s s.k.armed} edge={b2s s.k.edge} closed={cl} reads={s.reads} idle={s.idle} ctl={ctlStr d.g s}",
+  (s!"R {what} open=[{opens}] del=[{dels}] q={q} re={s.re} task={taskStr s.task} arm={b2s s.k.armed} edge={b2s s.k.edge} closed={cl} reads={s.reads} idle={s.idle} ctl={ctlStr d.g s d.wadded}",
    { d with nOpen := s.opens.length, nDlv := s.dlv.length })
 
 def fuelOf (g : Cfg) (s : St) : Nat :=
@@ -209,6 +212,13 @@ partial def loop (h : IO.FS.Stream) (d : DS) : IO Unit := do
           let (l, d) := showSt d "spin"
           IO.println l
           loop h { d with dead := true }
+    | ["backlog", _] =>
+      -- the read path does not depend on the write side: only the registration changes (and with it, in the code, the
+      -- interest set — which must still ask for EPOLLRDHUP: the reports of this model assume it)
+      if g.udp || g.mode == .os then IO.println "bad-op"; loop h d
+      else if s.closed then say d "nop"
+      else if (match s.task with | .rd _ _ => true | _ => false) && g.isAsync && d.exec == "park" then say d "busy"
+      else say { d with wadded := true } "backlog"
     | "xadd" :: _ | "xsend" :: _ | "xclose" :: _ | "xreuse" :: _ =>
       -- further stream conns of the same engine: every change goes through `FdTable.step`
       let sideOK := !g.udp && !g.isAsync
